@@ -75,6 +75,8 @@ class HedIDValidator:
         tag_library = tag_entry.has_attribute(HedKey.InLibrary, return_value=True)
         if not tag_library:
             tag_library = ""
+        # inLibrary is inherited, so a library tag below another library tag reports e.g. "score,score"
+        tag_library = tag_library.split(",")[0]
 
         previous_schema = self._previous_schemas.get(tag_library)
         if previous_schema:
